@@ -17,6 +17,11 @@ modes
                                               EVERY formula of the TLC-enumerated family with a repeated sub-formula
                                               (X op X in every 0-2 connective context; vectors flagged rep) through
                                               tseitin.encode / checker / convert_cnf, its CNF through sat.solve_cnf
+  family  <vectors.ndjson> <out.ndjson> <solve_out.ndjson> <fam> <seed> <full_upto> <sample> <check_level>
+                                              the TLC-enumerated NAME-SPACE family (fam = clash: atoms named x1, x2, ... like the
+                                              encoder's fresh variables): all members with <= full_upto connectives + a seeded sample
+  rclash  <n> <out.ndjson> <solve_out.ndjson> <seed> [prove]
+                                              seeded random formulas (3..5 connectives) whose atoms carry names x1 .. x9
   rformulas <n> <out.ndjson> <solve_out.ndjson> <seed> [prove]
                                               same on seeded random formulas with 3..5 connectives over <= 3 atoms (half of them wrapped into tautology schemes)
 No verdict is computed here: only projection of results to JSON.
@@ -331,6 +336,9 @@ def mk(f):
     k = f[0]
     if k == "atom":
         return H["Var"](f[1], H["BoolType"])
+    if k in ("true", "false"):
+        from kernel import term as _term
+        return getattr(_term, k)
     if k == "not":
         return H["Not"](mk(f[1]))
     a, b = mk(f[1]), mk(f[2])
@@ -443,15 +451,15 @@ def prove_events(f, src, slog, vid=0):
 
 
 def nconn(f):
-    return 0 if f[0] == "atom" else 1 + sum(nconn(g) for g in f[1:])
+    return 0 if f[0] in ("atom", "true", "false") else 1 + sum(nconn(g) for g in f[1:])
 
 
 def tseitin_mode(vec_path, out_path, solve_out, seed, full_upto, sample, prove):
     rnd = random.Random(seed * 104729 + 3)
     small, big = [], []
     for vid, v in read_vectors(vec_path):
-        if v.get("rep"):
-            continue            # the repeated-sub-formula family is replayed completely by the `repeats` mode
+        if v.get("rep") or v.get("fam") in ("clash", "const"):
+            continue            # these families are replayed by the `repeats` / `family` modes
         (small if nconn(v["formula"]) <= full_upto else big).append((vid, v["formula"]))
     if len(big) > sample:
         big = sorted(rnd.sample(big, sample))
@@ -491,6 +499,53 @@ def repeats_mode(vec_path, out_path, solve_out, level, prove):
     log.close()
     slog.close()
     print("repeats formulas", n, "events", log.tid, "solve events", slog.tid)
+
+
+def family_mode(vec_path, out_path, solve_out, fam, seed, full_upto, sample, level):
+    """The TLC-enumerated family `fam` (clash: atoms that carry names of the encoder's fresh-name scheme x1, x2, ...;
+    const: true / false as leaves): every member with <= full_upto connectives and a seeded sample of the larger ones
+    through tseitin.encode / checker / convert_cnf; the produced CNF through sat.solve_cnf."""
+    rnd = random.Random(seed * 7368787 + 5)
+    small, big = [], []
+    for vid, v in read_vectors(vec_path):
+        if v.get("fam") == fam:
+            (small if nconn(v["formula"]) <= full_upto else big).append((vid, v["formula"]))
+    if len(big) > sample:
+        big = sorted(rnd.sample(big, sample))
+    log, slog = Log(out_path), Log(solve_out)
+    for vid, f in small + big:
+        ev = tseitin_event(f, fam, vid, level)
+        log.write(ev)
+        if ev["outcome"] == "ok" and ev["cnf"]:
+            try:
+                cnf, names = lit_ids([[(nm, b) for nm, b in clause] for clause in ev["cnf"]])
+                sev = solve_event(cnf, names, "tseitin_" + fam, vid)
+                sev["names"] = names
+                slog.write(sev)
+            except Exception:
+                pass
+    log.close()
+    slog.close()
+    print("family", fam, "formulas", len(small), "+", len(big), "events", log.tid, "solve events", slog.tid)
+
+
+def rclash_mode(n, out_path, solve_out, seed, prove):
+    """Seeded random formulas with 3..5 connectives over <= 3 atoms drawn from a pool in which names of the encoder's
+    fresh-name scheme (x1 .. x9) stand next to ordinary names; at least one atom carries a scheme name."""
+    rnd = random.Random(seed * 32452843 + 7)
+    log, slog = Log(out_path), Log(solve_out)
+    xs = ["x%d" % i for i in range(1, 10)]
+    for i in range(n):
+        k = rnd.choice([1, 2, 2, 3, 3])
+        nx = rnd.randint(1, k)
+        atoms = rnd.sample(xs, nx) + rnd.sample(["a", "b", "y", "x", "x0"], k - nx)
+        f = random_formula(rnd, rnd.choice([3, 4, 4, 5, 5]), atoms)
+        log.write(tseitin_event(f, "rclash", 0, 1))
+        if prove:
+            log.write(prove_events(f, "rclash", slog, 0))
+    log.close()
+    slog.close()
+    print("random clash formulas", n, "events", log.tid, "solve events", slog.tid)
 
 
 def random_formula(rnd, n, atoms):
@@ -562,6 +617,10 @@ if __name__ == "__main__":
         repeats_mode(a[1], a[2], a[3], int(a[4]), len(a) > 5 and a[5] == "prove")
     elif mode == "rformulas":
         rformulas_mode(int(a[1]), a[2], a[3], int(a[4]), len(a) > 5 and a[5] == "prove")
+    elif mode == "family":
+        family_mode(a[1], a[2], a[3], a[4], int(a[5]), int(a[6]), int(a[7]), int(a[8]))
+    elif mode == "rclash":
+        rclash_mode(int(a[1]), a[2], a[3], int(a[4]), len(a) > 5 and a[5] == "prove")
     elif mode == "replay_solve":
         replay_solve(a[1], a[2])
     elif mode == "replay_formula":
